@@ -5,7 +5,7 @@ import ast
 
 from sa.astx import call_attr, call_name, dotted, src, walk_local
 from sa.selftest import Mutant, Silent
-from sa.props._lib_j import body_always_entered, run_sections, all_paths, edge_asserts, local_defs, no_exc, node_calls, normal_exits, params, resolve, rsrc
+from sa.props._lib_j import body_always_entered, normalise, run_sections, all_paths, edge_asserts, local_defs, no_exc, node_calls, normal_exits, params, resolve, rsrc
 
 PROPERTY = "C52"
 FP = "python/filepath.py"
@@ -25,7 +25,9 @@ EXPLANATION = (
     "Not decided: atomicity of rename itself, fsync/durability. "
     "Every anchor function is also checked to be entered on every call (no memoising/wrapping decorator, duplicate definition or rebinding). "
 )
-ASSUMPTIONS = ["os.rename within one directory is atomic", "a with block closes (flushes) the file on exit"]
+ASSUMPTIONS = [
+    "the rules read a normalised view of the anchored modules (sa/props/_lib_j.Normaliser): private helpers expanded at their call sites, module constants and single-assignment pure temporaries substituted, loops over constant tuples unrolled; evaluation order inside one statement is not modelled",
+   "os.rename within one directory is atomic", "a with block closes (flushes) the file on exit"]
 FS_MUTATORS = {"open", "_open", "unlink", "remove", "rename", "replace", "truncate", "setContent", "moveTo", "copyTo", "touch", "rmtree", "fdopen",
                "create", "copy", "copyfile", "move", "write_bytes", "write_text", "rmdir", "makedirs", "mkdir"}
 RENAMES = {"os.rename", "os.replace"}
@@ -48,6 +50,31 @@ _SHORT_WRITE = ("the handle is raw (buffering=0): one f.write() is one write(2) 
                 "temporary is renamed over the target as if complete (a buffered handle retries and raises, leaving the old content)")
 
 
+def _handle(ctx, f, oc):
+    """(handle variable name, closed before normal completion, close node ids or None for a with block) for an open-like call:
+    `with open(...) as h:`  or  `h = open(...)` followed, on every normally completing path, by `h.close()`."""
+    par = getattr(oc, "_parent", None)
+    if isinstance(par, ast.withitem):
+        return (src(par.optional_vars) if par.optional_vars is not None else None), True, None
+    # look through a cast(...) / wrapper call around the open
+    node = oc
+    while isinstance(getattr(node, "_parent", None), ast.Call) and node in getattr(node, "_parent").args:
+        node = getattr(node, "_parent")
+    par = getattr(node, "_parent", None)
+    if isinstance(par, ast.withitem):
+        return (src(par.optional_vars) if par.optional_vars is not None else None), True, None
+    if isinstance(par, (ast.Assign, ast.AnnAssign)):
+        tgt = par.targets[0] if isinstance(par, ast.Assign) else par.target
+        if isinstance(tgt, ast.Name):
+            g = ctx.cfg(f)
+            an = [n.id for n in g.nodes if n.ast is par and g.reachable(n.id)]
+            closes = [n for n, c in node_calls(g, lambda c: call_name(c) == tgt.id + ".close")]
+            # only normal completion matters: when the write raises, the caller never reaches its rename
+            leak = g.path(an, {g.exit}, avoid=closes, edge_ok=lambda a, b, l: l != "exc", strict=True) if an else [0]
+            return tgt.id, bool(closes) and leak is None, closes
+    return None, False, None
+
+
 def _writes_in_mode(c):
     """open-like call with a writing mode constant."""
     for a in list(c.args) + [k.value for k in c.keywords]:
@@ -60,15 +87,16 @@ def _replace_rules(ctx, f, g, q, *, opens, final_texts, temp_text, platform_ok, 
     """Shared K16 obligations once the (node, call) of the single writing open is known."""
     (on, oc) = opens
     withs = [a for a in _ancestors(oc, f) if isinstance(a, ast.With)]
-    ctx.check(bool(withs) and isinstance(getattr(oc, "_parent", None), ast.withitem), "replace/handle-closed-by-with", ctx.construct(q, "with <open temporary>"),
-              f"{what}: the temporary is not written inside a with block (the handle may still be open / unflushed when the rename happens)")
-    w_ = withs[0] if withs else None
+    hname, closed, closes = _handle(ctx, f, oc)
+    ctx.check(closed, "replace/handle-closed-by-with", ctx.construct(q, "with <open temporary>"),
+              f"{what}: the temporary's handle is not closed on every path (with block / try-finally close): it may still be open / unflushed when the rename happens")
+    w_ = withs[0] if (withs and closes is None) else None
     renames = node_calls(g, lambda c: call_name(c) in RENAMES)
     removes = node_calls(g, lambda c: call_name(c) in REMOVES)
     ctx.check(len(renames) == 1, "replace/single-rename", q, f"{what}: {len(renames)} rename calls (exactly one expected)")
     after_ok = lambda n: n not in g.reach([g.entry], edge_ok=lambda a, b, l: not (a == on and l != "exc"))
     for n, c in renames:
-        inside = w_ is not None and any(a is w_ for a in _ancestors(c, f))
+        inside = (w_ is not None and any(a is w_ for a in _ancestors(c, f))) or (closes is not None and g.must_precede(closes, [n], exc=False) is not None)
         ctx.check(not inside and after_ok(n), "replace/rename-after-close", ctx.construct(q, "os.rename(<temporary>, <final>)"),
                   f"{what}: the temporary is renamed over the final path while its handle is still open (inside the with block) or on a path on which it "
                   f"was not written: a crash leaves a truncated / partial file under the final name")
@@ -116,7 +144,8 @@ def _s_setcontent(ctx, S):
               f"the new content is written through {src(oc)} with receiver {recv or src(oc.func)}: not a temporarySibling() of this path - a crash in the "
               f"middle of the write leaves a partial file under the final name")
     wr = node_calls(g, lambda c: call_attr(c) == "write" and c.args and src(c.args[0]) == params(f)[1])
-    ctx.check(len(wr) == 1 and any(isinstance(a, ast.With) and any(it.context_expr is oc for it in a.items) for a in _ancestors(wr[0][1], f)) if wr else False,
+    hname = _handle(ctx, f, oc)[0]
+    ctx.check(len(wr) == 1 and isinstance(wr[0][1].func, ast.Attribute) and src(wr[0][1].func.value) == hname if wr else False,
               "replace/content-written-once", QS, "the content is not written exactly once into the temporary's handle")
     _replace_rules(ctx, f, g, QS, opens=(wr[0][0] if wr else on, oc), final_texts={"self.asBytesMode().path", "self.path"},
                    temp_text=f"self.temporarySibling({ext}).path",
@@ -268,11 +297,12 @@ def _s_savetemp(ctx, S):
     # two accepted shapes: open(<param>, "w…")  or  os.fdopen(os.open(<param>, flags), "w…")
     ok = False
     if len(so) == 1 and not lowopens and not fdopens:
-        ok = src(so[0].args[0]) == pst[1] and _writes_in_mode(so[0]) and isinstance(getattr(so[0], "_parent", None), ast.withitem)
+        ok = src(so[0].args[0]) == pst[1] and _writes_in_mode(so[0]) and _handle(ctx, st_, so[0])[1]
     elif not so and len(lowopens) == 1 and len(fdopens) == 1:
         fdarg = resolve(fdopens[0].args[0], dst) if fdopens[0].args else None
-        ok = fdarg is not None and src(fdarg) == src(lowopens[0]) and src(lowopens[0].args[0]) == pst[1] and isinstance(getattr(fdopens[0], "_parent", None), ast.withitem)
-    ctx.check(ok, "replace/handle-closed-by-with", QP + "._saveTemp", "_saveTemp does not open exactly its filename argument for writing inside a with block")
+        ok = fdarg is not None and src(fdarg) == src(lowopens[0]) and src(lowopens[0].args[0]) == pst[1] and _handle(ctx, st_, fdopens[0])[1]
+    ctx.check(ok, "replace/handle-closed-by-with", QP + "._saveTemp", "_saveTemp does not open exactly its filename argument for writing and close it on every exit "
+              "(with block, or try/finally close)")
     # the temporary starts empty: a leftover from an earlier crashed save must not survive behind shorter new content
     for c in so:
         mode = next((a.value for a in c.args[1:2] if isinstance(a, ast.Constant) and isinstance(a.value, str)), "r")
@@ -288,7 +318,8 @@ def _s_savetemp(ctx, S):
     for c in so:
         ctx.check(not _unbuffered(c), "replace/complete-write-or-error", ctx.construct(QP + "._saveTemp", "open(<temporary>, 'wb')"), _SHORT_WRITE)
     dump = [c for c in walk_local(st_) if isinstance(c, ast.Call) and isinstance(c.func, ast.Name) and c.func.id == pst[2]]
-    ctx.check(len(dump) == 1 and len(dump[0].args) == 2 and src(dump[0].args[0]) == "self.original" and any(isinstance(a, ast.With) for a in _ancestors(dump[0], st_)),
+    hname = next((h for h in (_handle(ctx, st_, c)[0] for c in so) if h), None)
+    ctx.check(len(dump) == 1 and len(dump[0].args) == 2 and src(dump[0].args[0]) == "self.original" and src(dump[0].args[1]) == hname,
               "replace/content-written-once", QP + "._saveTemp", "_saveTemp does not dump self.original once into the open handle")
     other = [c for c in walk_local(st_) if isinstance(c, ast.Call) and call_attr(c) in FS_MUTATORS and c not in so and c not in lowopens]
     ctx.check(not other, "replace/no-other-mutation", QP + "._saveTemp", f"_saveTemp also performs {[src(c) for c in other]}")
@@ -302,6 +333,8 @@ def _s_body(ctx, S):
 
 
 def check(ctx):
+    normalise(ctx, {FP: ["_secureEnoughString", "_getPathAsSameTypeAs", "_coerceToFilesystemEncoding"], SOB: ["_saveTemp", "_getFilename", "_getStyle"]},
+              scopes={FP: ["FilePath.setContent"], SOB: ["Persistent"]})
     run_sections(ctx, [("setContent", _s_setcontent), ("temporarySibling", _s_temporary), ("exclusive-open", _s_exclusive_open), ("Persistent.save", _s_save),
                        ("Persistent._saveTemp", _s_savetemp), ("Persistent._getFilename", _s_getfilename), ("body-entered", _s_body)])
 
@@ -366,6 +399,8 @@ MUTANTS = [
            expect_rule="replace/"),
     Mutant("sob-temporary-opened-without-trunc", SOB, "        with open(filename, \"wb\") as f:", "        fd = os.open(filename, os.O_WRONLY | os.O_CREAT)\n        with os.fdopen(fd, \"wb\") as f:",
            expect_rule="replace/temporary-starts-empty"),
+    Mutant("sob-handle-never-closed", SOB, "        with open(filename, \"wb\") as f:\n            dumpFunc(self.original, f)", "        f = open(filename, \"wb\")\n        dumpFunc(self.original, f)",
+           expect_rule="replace/handle-closed-by-with"),
     Mutant("sob-rename-swapped", SOB, "        os.rename(filename, finalname)\n", "        os.rename(finalname, filename)\n", expect_rule="replace/rename-temp-over-final"),
     Mutant("sob-unconditional-remove", SOB, "        if runtime.platformType == \"win32\" and os.path.isfile(finalname):", "        if os.path.isfile(finalname):", expect_rule="replace/final-removed-only-on-windows"),
     Mutant("temporary-without-random", FP, "            _secureEnoughString(ourPath) + self.clonePath(ourPath).basename() + ext", "            self.clonePath(ourPath).basename() + ext",
@@ -376,6 +411,15 @@ SILENT = [
            "        temporary = self.temporarySibling(ext)\n        with temporary.open(\"w\") as out:\n            out.write(content)\n        if platform.isWindows() and exists(self.path):\n            os.unlink(self.path)\n        os.rename(temporary.path, self.asBytesMode().path)"),
     Silent("platform-test-order", FP, "        if platform.isWindows() and exists(self.path):\n            os.unlink(self.path)\n        os.rename(sib.path", "        if exists(self.path) and platform.isWindows():\n            os.unlink(self.path)\n        os.rename(sib.path"),
     Silent("sob-temporary-via-os-open-trunc", SOB, "        with open(filename, \"wb\") as f:", "        fd = os.open(filename, os.O_WRONLY | os.O_CREAT | os.O_TRUNC, 0o600)\n        with os.fdopen(fd, \"wb\") as f:"),
+    Silent("sob-handle-closed-by-try-finally", SOB, "        with open(filename, \"wb\") as f:\n            dumpFunc(self.original, f)",
+           "        f = open(filename, \"wb\")\n        try:\n            dumpFunc(self.original, f)\n        finally:\n            f.close()"),
+    Silent("setContent-split-into-private-steps", FP,
+           "        sib = self.temporarySibling(ext)\n        with sib.open(\"w\") as f:\n            f.write(content)\n        if platform.isWindows() and exists(self.path):\n            os.unlink(self.path)\n        os.rename(sib.path, self.asBytesMode().path)\n",
+           "        sib = self.temporarySibling(ext)\n        self._fill(sib, content)\n        self._swapIn(sib)\n\n    def _fill(self, tmp, data):\n        with tmp.open(\"w\") as out:\n            out.write(data)\n\n"
+           "    def _swapIn(self, tmp):\n        if not platform.isWindows():\n            pass\n        elif exists(self.path):\n            os.unlink(self.path)\n        src_ = tmp.path\n        os.rename(src_, self.asBytesMode().path)\n"),
+    Silent("sob-rename-in-private-helper", SOB, "        if runtime.platformType == \"win32\" and os.path.isfile(finalname):\n            os.remove(finalname)\n        os.rename(filename, finalname)\n",
+           "        self._publish(filename, finalname)\n",
+           more=[(SOB, "    def _saveTemp(self, filename, dumpFunc):", "    def _publish(self, tmp, final):\n        if runtime.platformType == \"win32\":\n            if os.path.isfile(final):\n                os.remove(final)\n        os.rename(tmp, final)\n\n    def _saveTemp(self, filename, dumpFunc):")]),
     Silent("os-replace", SOB, "        os.rename(filename, finalname)\n", "        os.replace(filename, finalname)\n"),
     Silent("sob-nested-platform-test", SOB, "        if runtime.platformType == \"win32\" and os.path.isfile(finalname):\n            os.remove(finalname)\n",
            "        if runtime.platformType == \"win32\":\n            if os.path.isfile(finalname):\n                os.remove(finalname)\n"),
